@@ -177,7 +177,8 @@ def generate(seed, prop):
         pos = rng.randint(0, len(ops))
         ops[pos:pos] = [{"op": "process", "recs": a, "s": k, "own": True, "tag": "A"},
                         {"op": "process_bad", "recs": rng.sample(range(n_rec), rng.randint(1, n_rec)), "s": n_set - 1,
-                         "kind": rng.choice(["nan_last", "bad_window_type", "unknown_operator", "above_nyquist"])},
+                         "kind": rng.choice(["nan_last", "bad_window_type", "unknown_operator", "above_nyquist", "injected", "injected"]),
+                         "site": rng.choice(["rfft", "rfft", "smooth", "window"]), "at": rng.randrange(0, 9)},
                         {"op": "process", "recs": b, "s": k, "own": True},
                         {"op": "repeat", "which": 0, "tag": "A"}]
     if many:
@@ -208,7 +209,10 @@ def draw_op(rng, name, n_rec, n_set, own):
                 "how": rng.choice(["width_inplace", "fcs_inplace", "assign_width", "assign_policy", "bandwidth"])}
     if name == "process_bad":
         return {"op": "process_bad", "recs": rng.sample(range(n_rec), rng.randint(1, n_rec)),
-                "s": rng.randrange(n_set), "kind": rng.choice(["nan_last", "bad_window_type", "unknown_operator"])}
+                "s": rng.randrange(n_set), "kind": rng.choice(["nan_last", "bad_window_type", "unknown_operator", "injected", "injected"]),
+                # fault injection: the k-th call of an inner routine fails (an allocation failure inside the FFT, the
+                # smoothing kernel or the taper), i.e. the call is aborted at an arbitrary point
+                "site": rng.choice(["rfft", "rfft", "smooth", "window"]), "at": rng.randrange(0, 9)}
     raise ValueError(name)
 
 
@@ -605,15 +609,26 @@ def apply_op(ctx, st, op, prop):
             f0 = list(np.asarray(settings.smoothing["center_frequencies_in_hz"], float))
             f0[-1] = 1.0e4                                   # far above every Nyquist frequency: the call must be refused
             settings.smoothing["center_frequencies_in_hz"] = f0
+        elif op["kind"] == "injected":
+            settings = st.sets[op["s"]] if own else make_settings(H, spec)
         else:
             settings = make_settings(H, spec)
             settings.smoothing["operator"] = "no_such_operator"
         before = [semantic_snap(r) for r in st.recs]
         exc = None
+        inj = _Injector(H, op.get("site", "rfft"), op.get("at", 0)) if op["kind"] == "injected" else None
         try:
-            _process(H, records, settings)
+            if inj:
+                inj.__enter__()
+            try:
+                _process(H, records, settings)
+            finally:
+                if inj:
+                    inj.__exit__()
         except Exception as e:                              # noqa
             exc = e
+        if inj and inj.fired:
+            ctx.fault("injected_failure_in_" + op.get("site", "rfft"))
         if exc is not None:
             ctx.probe("aborted_process_call")
         if ctx.wants("C09") and own:
@@ -626,6 +641,49 @@ def apply_op(ctx, st, op, prop):
         raise HarnessError(name)
     if ctx.wants("C09"):
         frozen_results(ctx, st, op)
+
+
+class InjectedFailure(MemoryError):
+    pass
+
+
+class _Injector:
+    """Make the k-th call of an inner routine of hvsrpy.processing fail (while installed)."""
+
+    def __init__(self, H, site, at):
+        import hvsrpy.processing as P
+        self.P, self.site, self.at, self.n, self.fired = P, site, (at % 2 if site == "smooth" else at), 0, False
+        self.H = H
+
+    def _wrap(self, fn):
+        def wrapper(*a, **k):
+            self.n += 1
+            if self.n - 1 == self.at and not self.fired:
+                self.fired = True
+                raise InjectedFailure(f"injected failure in {self.site} call {self.at}")
+            return fn(*a, **k)
+        return wrapper
+
+    def __enter__(self):
+        P = self.P
+        if self.site == "rfft":
+            self.saved = ("rfft", P.rfft)
+            P.rfft = self._wrap(P.rfft)
+        elif self.site == "smooth":
+            self.saved = ("SMOOTHING_OPERATORS", P.SMOOTHING_OPERATORS)
+            P.SMOOTHING_OPERATORS = {k: self._wrap(v) for k, v in P.SMOOTHING_OPERATORS.items()}
+        else:
+            self.saved = ("window", self.H.TimeSeries.window)
+            self.H.TimeSeries.window = self._wrap(self.H.TimeSeries.window)
+        return self
+
+    def __exit__(self, *exc):
+        name, old = self.saved
+        if name == "window":
+            self.H.TimeSeries.window = old
+        else:
+            setattr(self.P, name, old)
+        return False
 
 
 def _digest_result(H, res):
